@@ -3,6 +3,7 @@ package p_xbinary
 import (
 	"bufio"
 	"bytes"
+	"errors"
 	"fmt"
 	"io"
 	"runtime"
@@ -24,6 +25,11 @@ const (
 	// io.Writer-only sink; the harness itself has written <fill> (<= size) bytes into it before the history starts, so
 	// the first item finds size-fill bytes of free space (0 included) and the following ones whatever the history left.
 	DBufio = "bufio"
+	// DQuota is an io.Writer-only sink with a quota that the history switches on for single steps (WStep.Fail): while
+	// it is on, the sink accepts `room` more bytes and answers the Write that does not fit with (what still fitted,
+	// error) - n == 0 or a partial write 0 < n < len(p) with an error, as io.Writer allows (a full disk, a socket with
+	// a full send buffer). Afterwards the SAME Writer value works again.
+	DQuota = "quota"
 )
 
 // BufioDst names a bufio destination.
@@ -39,10 +45,20 @@ func dstKind(d string) string {
 // WStep writes one item to the destination Dst (modulo the number of destinations). Fork: before the item is written,
 // every framing destination of the goroutine gets a by-value copy of the goroutine's writer AS IT IS NOW as its inner
 // writer (`inner = *ow`, Writer re-pointed to the frame's own output) - the sink of a writer then owns a copy of it.
+//
+// Fail: the sink is out of order for the duration of this step: it takes Room % size bytes (size = the item's
+// encoding, so the step always meets the fault; 0 = the failing Write returns n == 0, otherwise a Write of the step is
+// a partial one) and fails. A quota destination does that itself and recovers when the step is over; for every other
+// kind the Writer field points to a failing writer for this step and is re-pointed to the healthy destination by the
+// next one. What ObjectsWriter returns for the failing step and what a torn item left in the sink is NOT judged (C15
+// says nothing about a failing Writer; the sink's owner drops the torn bytes); the steps before and after it are
+// ordinary writes and are judged as ever.
 type WStep struct {
 	Item Item `json:"item"`
 	Dst  int  `json:"dst"`
 	Fork bool `json:"fork,omitempty"`
+	Fail bool `json:"fail,omitempty"`
+	Room int  `json:"room,omitempty"`
 }
 
 // Case15W is a writer history for C15: every sequence is run by its own goroutine through ONE ObjectsWriter value
@@ -61,6 +77,9 @@ type Case15W struct {
 	P1   bool      `json:"p1,omitempty"` // run with GOMAXPROCS(1)
 	Pre  []Item    `json:"pre,omitempty"`
 	Copy bool      `json:"copy,omitempty"`
+	// PreFail > 0 (with Copy and a non-empty Pre): the sink of the base writer fails during the LAST item of Pre
+	// after (PreFail-1) % size bytes - the writers of the history are copies of a writer whose last call failed.
+	PreFail int `json:"prefail,omitempty"`
 }
 
 // Hash identifies the case.
@@ -80,11 +99,19 @@ type Info15W struct {
 	CopiesUnused   int // ... of a writer that had not
 	Forks          int // framing destinations whose inner writer was replaced by a copy of the outer writer in mid-history
 	ForksUsed      int // ... when the outer writer had already written something
+	FailedSteps    int // steps during which the sink was out of order
+	FailN0         int // Write calls that the sink answered with (0, error)
+	FailPartial    int // Write calls that the sink answered with (n, error), 0 < n < len(p)
+	AfterRecovered int // judged items written to the same Writer value whose previous call had failed
+	AfterRepointed int // judged items written after the Writer field was re-pointed away from a sink that had just failed
+	AfterFault     int // judged items written by a writer value that has seen a failing sink at some earlier time
+	FailRuns       int // two or more failing steps in a row
+	CopiesFailed   int // writer values that started as a by-value copy of a writer whose last call had failed
 }
 
 // NonTrivial: the history differs from "one fresh ObjectsWriter into one bytes.Buffer".
 func (i Info15W) NonTrivial() bool {
-	return i.Repoints > 0 || i.Goroutines > 1 || i.kinds[DFrame] || i.kinds[DYield] || i.kinds[DPlain] || i.kinds[DBufio] || i.CopiesUsed > 0 || i.ForksUsed > 0
+	return i.Repoints > 0 || i.Goroutines > 1 || i.kinds[DFrame] || i.kinds[DYield] || i.kinds[DPlain] || i.kinds[DBufio] || i.kinds[DQuota] || i.CopiesUsed > 0 || i.ForksUsed > 0 || i.AfterFault > 0
 }
 
 // Classes for the histogram.
@@ -93,7 +120,7 @@ func (i Info15W) Classes() []string {
 	if i.Repoints > 0 {
 		c = append(c, "writers_Writer_field_repointed")
 	}
-	for _, k := range []string{DBuf, DPlain, DFrame, DYield, DBufio} {
+	for _, k := range []string{DBuf, DPlain, DFrame, DYield, DBufio, DQuota} {
 		if i.kinds[k] {
 			c = append(c, "writers_dst_"+k)
 		}
@@ -128,6 +155,30 @@ func (i Info15W) Classes() []string {
 	if i.ForksUsed > 0 {
 		c = append(c, "writers_framing_sink_given_copy_of_used_outer_writer")
 	}
+	if i.FailedSteps > 0 {
+		c = append(c, "writers_sink_failed_during_a_step")
+	}
+	if i.FailN0 > 0 {
+		c = append(c, "writers_sink_failed_with_n_0")
+	}
+	if i.FailPartial > 0 {
+		c = append(c, "writers_sink_partial_write_with_error")
+	}
+	if i.FailRuns > 0 {
+		c = append(c, "writers_sink_failed_ge_2_steps_in_a_row")
+	}
+	if i.AfterFault > 0 {
+		c = append(c, "writers_item_judged_after_a_sink_failure")
+	}
+	if i.AfterRecovered > 0 {
+		c = append(c, "writers_item_judged_on_recovered_sink_same_Writer_value")
+	}
+	if i.AfterRepointed > 0 {
+		c = append(c, "writers_item_judged_after_Writer_repointed_from_failed_sink")
+	}
+	if i.CopiesFailed > 0 {
+		c = append(c, "writers_are_copies_of_a_writer_whose_last_call_failed")
+	}
 	return c
 }
 
@@ -158,6 +209,46 @@ func (d *yieldDest) Write(p []byte) (int, error) {
 }
 func (d *yieldDest) target() io.Writer                   { return d }
 func (d *yieldDest) payload() ([]byte, *vstat.Violation) { return d.b, nil }
+
+// quotaDest is an io.Writer and nothing else. While limited it accepts room more bytes - they go to the torn counter,
+// not to the payload: the owner of the sink drops what a failed item left behind - and fails the Write that does not
+// fit with (what fitted, errQuota); room < the size of the item of the step, so one Write of the step fails.
+type quotaDest struct {
+	b       []byte
+	limited bool
+	room    int
+	torn    int
+	n0      int // failing Writes answered with n == 0
+	partial int // ... with 0 < n < len(p)
+}
+
+var errQuota = errors.New("harness sink: out of space for now")
+
+func (d *quotaDest) limit(room int) { d.limited, d.room = true, room }
+func (d *quotaDest) heal()          { d.limited, d.room = false, 0 }
+
+func (d *quotaDest) Write(p []byte) (int, error) {
+	if !d.limited {
+		d.b = append(d.b, p...)
+		return len(p), nil
+	}
+	if len(p) <= d.room {
+		d.room -= len(p)
+		d.torn += len(p)
+		return len(p), nil
+	}
+	k := d.room
+	d.room = 0
+	d.torn += k
+	if k == 0 {
+		d.n0++
+	} else {
+		d.partial++
+	}
+	return k, errQuota
+}
+func (d *quotaDest) target() io.Writer                   { return d }
+func (d *quotaDest) payload() ([]byte, *vstat.Violation) { return d.b, nil }
 
 // bufioDest: the target is the *bufio.Writer itself (what a caller who buffers a file or a socket hands to
 // ObjectsWriter), already holding `fill` bytes written by the harness.
@@ -262,6 +353,8 @@ func newDest(kind string, from *xbinary.ObjectsWriter) dest {
 		return &plainDest{}
 	case DYield:
 		return &yieldDest{}
+	case DQuota:
+		return &quotaDest{}
 	case DFrame:
 		return newFrameDest(from)
 	}
@@ -270,7 +363,8 @@ func newDest(kind string, from *xbinary.ObjectsWriter) dest {
 
 // Run15W executes a writer history. Oracle (C15: "ObjectsWriter and Marshal emit identical bytes", counts == sizes):
 // every write returns (size, nil) and every destination ends up with exactly the concatenation of the Marshal
-// encodings of the items that were directed to it, in order.
+// encodings of the items that were directed to it, in order. The steps with Fail (the sink is out of order while they
+// run) are the exception: neither their result nor their bytes are judged - every other step is, whatever failed before it.
 func Run15W(c Case15W) (info Info15W, v *vstat.Violation) {
 	defer func() {
 		if r := recover(); r != nil {
@@ -292,10 +386,14 @@ func Run15W(c Case15W) (info Info15W, v *vstat.Violation) {
 		low   int
 		full  int
 		forks [2]int // framing destinations that adopted a copy of the outer writer: [0] all, [1] when it had written
+		// sink failures: steps, Writes answered (0, err) / (0<n<len, err), judged items on the recovered Writer value /
+		// after a re-point away from the failed sink / any time after a failure, runs of >= 2 failing steps
+		failed, n0, partial, recovered, repointed, after, runs int
 	}
 	var scratch Info15
 	// the base writer: used for the items Pre (oracle as for every other write), then only copied
 	var base *xbinary.ObjectsWriter
+	baseFailed := false
 	if c.Copy {
 		var preBuf, preWant bytes.Buffer
 		base = &xbinary.ObjectsWriter{Writer: &preBuf}
@@ -304,6 +402,19 @@ func Run15W(c Case15W) (info Info15W, v *vstat.Violation) {
 			enc := make([]byte, cd.size)
 			if n, err := cd.marshal(enc); err != nil || n != cd.size {
 				return info, vstat.V("xbin:size-law", "base writer item #%d %s: Marshal into the predicted size %d returned (%d, %v)", i, cd.name, cd.size, n, err)
+			}
+			if c.PreFail > 0 && i == len(c.Pre)-1 && cd.size > 0 {
+				// the base writer's last call meets a failing sink (not judged); its earlier items are judged below
+				lim := &quotaDest{}
+				lim.limit((c.PreFail - 1) % cd.size)
+				base.Writer = lim
+				cd.write(base)
+				base.Writer = &preBuf
+				baseFailed = true
+				info.FailedSteps++
+				info.FailN0 += lim.n0
+				info.FailPartial += lim.partial
+				break
 			}
 			preWant.Write(enc)
 			if n, err := cd.write(base); err != nil || n != cd.size {
@@ -322,6 +433,9 @@ func Run15W(c Case15W) (info Info15W, v *vstat.Violation) {
 			info.CopiesUsed += n
 		} else {
 			info.CopiesUnused += n
+		}
+		if baseFailed {
+			info.CopiesFailed += n
 		}
 	}
 	ps := make([]*prepared, len(c.Seqs))
@@ -349,7 +463,9 @@ func Run15W(c Case15W) (info Info15W, v *vstat.Violation) {
 			if j < 0 {
 				j += len(c.Dsts)
 			}
-			p.want[j] = append(p.want[j], enc...)
+			if !st.Fail {
+				p.want[j] = append(p.want[j], enc...)
+			}
 			p.cds = append(p.cds, cd)
 			info.kinds[dstKind(c.Dsts[j])] = true
 			if last >= 0 && last != j {
@@ -374,6 +490,9 @@ func Run15W(c Case15W) (info Info15W, v *vstat.Violation) {
 			}
 		}()
 		ow := p.ow
+		// the Writer value of the previous step when that step failed (nil otherwise); has this writer ever met a failure
+		var failedOn io.Writer
+		everFailed, failRun := baseFailed, 0
 		for i, st := range c.Seqs[g] {
 			j := st.Dst % len(c.Dsts)
 			if j < 0 {
@@ -390,7 +509,40 @@ func Run15W(c Case15W) (info Info15W, v *vstat.Violation) {
 					}
 				}
 			}
+			if st.Fail {
+				// the sink is out of order during this step: a quota destination itself (it recovers afterwards), any
+				// other kind by way of a failing writer that the Writer field points to for this step only
+				qd, own := p.dsts[j].(*quotaDest)
+				if !own {
+					qd = &quotaDest{}
+				}
+				n0, partial := qd.n0, qd.partial
+				qd.limit(max(st.Room, 0) % max(p.cds[i].size, 1))
+				ow.Writer = qd
+				p.cds[i].write(ow) // not judged
+				qd.heal()
+				p.failed++
+				p.n0 += qd.n0 - n0
+				p.partial += qd.partial - partial
+				failedOn, everFailed = qd, true
+				if failRun++; failRun == 2 {
+					p.runs++
+				}
+				continue
+			}
+			failRun = 0
 			ow.Writer = p.dsts[j].target()
+			if everFailed {
+				p.after++
+			}
+			if failedOn != nil {
+				if ow.Writer == failedOn {
+					p.recovered++
+				} else {
+					p.repointed++
+				}
+				failedOn = nil
+			}
 			if bw, ok := ow.Writer.(*bufio.Writer); ok {
 				if a := bw.Available(); a == 0 {
 					p.full++
@@ -426,6 +578,13 @@ func Run15W(c Case15W) (info Info15W, v *vstat.Violation) {
 		info.NoSpace += p.full
 		info.Forks += p.forks[0]
 		info.ForksUsed += p.forks[1]
+		info.FailedSteps += p.failed
+		info.FailN0 += p.n0
+		info.FailPartial += p.partial
+		info.AfterRecovered += p.recovered
+		info.AfterRepointed += p.repointed
+		info.AfterFault += p.after
+		info.FailRuns += p.runs
 	}
 	for g, p := range ps {
 		if p.v != nil {
